@@ -97,7 +97,9 @@ def spellings(ctx, host, rng, full):
         out.append(("https://user:pw@%s:8443/some/path.html?q=1#f" % host, "url"))
         out.append(("//%s/x" % host, "url"))
         out.append(("%s:80/a.b/c" % host.capitalize(), "url"))
-        ctx.count("form-url", 3)
+        out.append(("%s?x=1&next=www.other.co.uk" % host, "url"))  # scheme-less and slash-less, with a query / a fragment
+        out.append(("%s#www.other.com" % host, "url"))
+        ctx.count("form-url", 5)
     return out
 
 
